@@ -4,6 +4,7 @@ From Coq Require Import List NArith Bool Lia String.
 From Breadlog Require Import Model.Peg Model.Text Model.Regex Model.Glue Model.Tables Model.Utf8 Model.Driver Model.History.
 From Breadlog Require Import Gen.Consts.
 From Breadlog Require Import Proofs.RewriteFacts Proofs.WorldFacts Proofs.DriverFacts Proofs.AllocFacts Proofs.RunFacts Proofs.HistoryFacts Proofs.CheckFacts.
+From Breadlog Require Import Proofs.StatementLemmas Proofs.ArgLemmas Proofs.FileSpec Proofs.CanonicalRun.
 From Breadlog Require Import Properties.Common.
 Import ListNotations.
 Open Scope N_scope.
@@ -43,6 +44,20 @@ Proof.
     as [(Ht & _ & Hi)|[Hc _]]; [left; split; assumption|right; exact (Hc Hnr)].
 Qed.
 
+(* THE VERDICT FROM THE TEXT ALONE: on a tree whose files are canonical files (Proofs/FileSpec.v; see
+   C10_canonical_files / C13_canonical_files), all readable, not interrupted: --check reports, file by
+   file and in order, exactly the line and column `expected` computes from each file's text for the
+   statements that lack a reference; the total is their number; the exit status is non-zero exactly
+   when there is one.  No panic / hang hypothesis (C17), no parse tree, no entry list. *)
+Theorem C05_canonical_check : forall rc files specs o,
+  files <> [] -> canonical_tree files specs -> (forall j, o_rfail2 o j = false) -> o_stop2 o = None ->
+  let out := check rc files o in
+  let want := canonical_missing (rc_cfg rc) specs 0 in
+  filter is_missing_report (ro_reports out) = want /\
+  ro_total out = Some (lenN want) /\
+  (ro_exit out = XErr <-> want <> []) /\ (ro_exit out = XOk <-> want = []).
+Proof. exact canonical_check_verdict. Qed.
+
 Lemma expected_missing_one : forall rc o b es,
   file_entries find (rc_cfg rc) (o_rfail2 o 0%nat) b = FEntries es ->
   expected_missing find (rc_cfg rc) (o_rfail2 o) [b] 0 = missing_reports 0 es.
@@ -58,5 +73,6 @@ Example C05_nonvacuous :
 Proof. vm_compute. repeat split; reflexivity. Qed.
 
 Print Assumptions C05_check_verdict.
+Print Assumptions C05_canonical_check.
 Print Assumptions C05_edit_count_is_exact.
 Print Assumptions C05_missing_predicates_agree.
